@@ -210,4 +210,160 @@ theorem pickLock_reissue {s s' : St} {o : PickOutcome} {sv : Nat} {ps : List Pic
         rfl
       · simp only [hsp]
 
+
+theorem prepTail_ok {s1 s' : St} {ps : List Picked} {ds ds' : List Draw} {pin? : Option Nat} {job : Job}
+    (h : prepTail s1 ps ds pin? = .ok (s', job, ds')) :
+    (∃ occ', s' = { s1 with occ := occ' }) ∧ job.picked.map (fun p => (p.ens, p.pn)) = ps.map (fun p => (p.ens, p.pn)) := by
+  unfold prepTail at h
+  split at h
+  · exact absurd h (by simp)
+  · simp only [] at h
+    split at h
+    · exact absurd h (by simp)
+    · rename_i occ' idx _
+      split at h
+      · exact absurd h (by simp)
+      · simp only [Except.ok.injEq, Prod.mk.injEq] at h
+        obtain ⟨h1, h2, _⟩ := h
+        subst h1; subst h2
+        refine ⟨⟨occ', rfl⟩, ?_⟩
+        simp [List.map_map, Function.comp_def]
+
+theorem initiate_fields (s : St) :
+    (initiate s).1.locked0 = s.locked0 ∧ (initiate s).1.locked = s.locked ∧ (initiate s).1.trajs = s.trajs ∧
+      (initiate s).1.locks = s.locks := by
+  unfold initiate
+  split <;> simp
+
+/-- `initiate()` answers True only while a worker slot and a step are left; it then uses up one slot.  Hence at most
+    `min(workers, tsteps − cstep)` jobs are started by the initiation loop (and so re-issued after a restart). -/
+theorem initiate_go {s : St} (h : (initiate s).2 = true) :
+    0 < s.toinitiate ∧ (s.cstep : Int) + ((s.workers : Int) - s.toinitiate) < (s.tsteps : Int) ∧
+      (initiate s).1.toinitiate = s.toinitiate - 1 := by
+  unfold initiate at h ⊢
+  by_cases hc : s.cstep < s.tsteps
+  · simp only [hc, not_true_eq_false, if_false] at h ⊢
+    by_cases hz : s.toinitiate > 0 ∧ (s.cstep : Int) + ((s.workers : Int) - s.toinitiate) ≥ (s.tsteps : Int)
+    · simp only [hz, and_self, if_true] at h
+      simp at h
+    · simp only [hz, if_false] at h ⊢
+      simp only [decide_eq_true_eq] at h
+      have hb : ¬ ((s.cstep : Int) + ((s.workers : Int) - s.toinitiate) ≥ (s.tsteps : Int)) :=
+        fun hb => hz ⟨by omega, hb⟩
+      exact ⟨by omega, by omega, trivial⟩
+  · simp only [hc, not_false_eq_true, if_true] at h
+    exact absurd h (by simp)
+
+/-- **one iteration of the initiation loop after a restart, while recorded jobs are left** -/
+theorem start_reissue {y y' : Sys} {o : PickOutcome} {sv : Nat}
+    (es ts : List Nat) (rest : List (List Nat × List Nat)) (H : List (Nat × Nat))
+    (hl0 : y.s.locked0 = (es, ts) :: rest) (hlen : y.s.trajs.length = y.s.locks.length) (hH : Held y.s H)
+    (hnd : ((H ++ es.zip ts).map (·.2)).Nodup)
+    (h : sysStep y (.start o sv) = .ok y') :
+    ∃ job, y'.jobs = y.jobs ++ [job] ∧
+      job.picked.map (fun p => (p.ens, p.pn)) = (es.zip ts).map (fun x => ((x.1 : Int) - 1, x.2)) ∧
+      y'.s.locked0 = rest ∧ y'.s.locked = y.s.locked ++ [(es.map (fun (e : Nat) => (e : Int) - 1), ts)] ∧
+      Held y'.s (H ++ es.zip ts) ∧ y'.s.trajs.length = y'.s.locks.length := by
+  simp only [sysStep] at h
+  split at h
+  · exact absurd h (by simp)
+  · rename_i hgo
+    simp only [Bool.not_eq_true, Bool.not_eq_false] at hgo
+    obtain ⟨f0, fl, ft, fk⟩ := initiate_fields y.s
+    rw [prep_eq_tail] at h
+    have hti : (initiate y.s).1.toinitiate ≥ 0 := by
+      have := initiate_go hgo
+      omega
+    simp only [hti, if_true] at h
+    split at h
+    · exact absurd h (by simp)
+    · rename_i s3 job ds hprep
+      simp only [Except.ok.injEq] at h
+      subst h
+      split at hprep
+      · exact absurd hprep (by simp)
+      · rename_i s2 ps ds2 hpl
+        have hH0 : Held (initiate y.s).1 H := by
+          intro x hx; rw [fk, ft]; exact hH x hx
+        obtain ⟨h1, _, h3, h4, _, _, h7, h8⟩ := pickLock_reissue es ts rest H (by rw [f0]; exact hl0)
+          (by rw [ft, fk]; exact hlen) hH0 hnd hpl
+        obtain ⟨⟨occ', hs3⟩, hj⟩ := prepTail_ok hprep
+        refine ⟨job, rfl, hj.trans h1, ?_, ?_, ?_, ?_⟩
+        · simp only [hs3]; exact h3
+        · simp only [hs3]; rw [h4, fl]
+        · intro x hx; simp only [hs3]; exact h7 x hx
+        · simp only [hs3]; exact h8
+
+
+/-- the (slot, path) pairs of a recorded job -/
+def recPairs (r : List Nat × List Nat) : List (Nat × Nat) := r.1.zip r.2
+/-- the (ensemble, path) pairs of the job `pick_lock` must hand out for it -/
+def recJob (r : List Nat × List Nat) : List (Int × Nat) := (recPairs r).map (fun x => ((x.1 : Int) - 1, x.2))
+/-- the entry appended to `locked` for it -/
+def recEntry (r : List Nat × List Nat) : List Int × List Nat := (r.1.map (fun (e : Nat) => (e : Int) - 1), r.2)
+
+theorem reissue_run : ∀ (rec : List (List Nat × List Nat)) (starts : List (PickOutcome × Nat)) (y y' : Sys)
+    (rest : List (List Nat × List Nat)) (H : List (Nat × Nat)),
+    starts.length = rec.length → y.s.locked0 = rec ++ rest → y.s.trajs.length = y.s.locks.length → Held y.s H →
+    ((H ++ rec.flatMap recPairs).map (·.2)).Nodup →
+    run y (starts.map (fun x => Ev.start x.1 x.2)) = .ok y' →
+    ∃ jobs, y'.jobs = y.jobs ++ jobs ∧
+      jobs.map (fun j => j.picked.map (fun p => (p.ens, p.pn))) = rec.map recJob ∧
+      y'.s.locked0 = rest ∧ y'.s.locked = y.s.locked ++ rec.map recEntry ∧
+      Held y'.s (H ++ rec.flatMap recPairs) := by
+  intro rec
+  induction rec with
+  | nil =>
+    intro starts y y' rest H hl h0 _ hH _ hrun
+    have : starts = [] := List.eq_nil_of_length_eq_zero (by simpa using hl)
+    subst this
+    simp only [List.map_nil, run, Except.ok.injEq] at hrun
+    subst hrun
+    exact ⟨[], by simp, rfl, by simpa using h0, by simp, by simpa using hH⟩
+  | cons r rec ih =>
+    intro starts y y' rest H hl h0 hlen hH hnd hrun
+    cases starts with
+    | nil => simp at hl
+    | cons st starts =>
+      obtain ⟨es, ts⟩ := r
+      simp only [List.map_cons, run] at hrun
+      split at hrun
+      · exact absurd hrun (by simp)
+      · rename_i y1 hstep
+        have hnd1 : ((H ++ es.zip ts).map (·.2)).Nodup := by
+          simp only [List.flatMap_cons, recPairs] at hnd
+          rw [← List.append_assoc, List.map_append] at hnd
+          exact (List.nodup_append.mp hnd).1
+        obtain ⟨job, hj1, hj2, hj3, hj4, hj5, hj6⟩ :=
+          start_reissue es ts (rec ++ rest) H (by simpa using h0) hlen hH hnd1 hstep
+        have hnd2 : (((H ++ es.zip ts) ++ rec.flatMap recPairs).map (·.2)).Nodup := by
+          simp only [List.flatMap_cons, recPairs] at hnd
+          rw [List.append_assoc]
+          exact hnd
+        obtain ⟨jobs, k1, k2, k3, k4, k5⟩ := ih starts y1 y' rest (H ++ es.zip ts) (by simpa using hl) hj3 hj6 hj5 hnd2 hrun
+        refine ⟨job :: jobs, ?_, ?_, k3, ?_, ?_⟩
+        · rw [k1, hj1]; simp
+        · simp only [List.map_cons, k2, hj2]; rfl
+        · rw [k4, hj4]; simp [recEntry]
+        · simp only [List.flatMap_cons, recPairs]
+          rw [← List.append_assoc]
+          exact k5
+
+theorem persist_locked_recEntry (rec : List (List Nat × List Nat)) (h : ∀ r ∈ rec, ∀ e ∈ r.1, 1 ≤ e) :
+    (rec.map recEntry).map (fun (x : List Int × List Nat) => (x.1.map (fun e => (e + (off : Int)).toNat), x.2)) = rec := by
+  induction rec with
+  | nil => rfl
+  | cons r rec ih =>
+    simp only [List.map_cons, List.cons.injEq]
+    refine ⟨?_, ih (fun r' hr' => h r' (List.mem_cons_of_mem _ hr'))⟩
+    obtain ⟨es, ts⟩ := r
+    simp only [recEntry, List.map_map, Prod.mk.injEq, and_true]
+    have : ∀ e ∈ es, ((fun e => (e + (off : Int)).toNat) ∘ fun (e : Nat) => (e : Int) - 1) e = e := by
+      intro e he
+      have := h (es, ts) (by simp) e he
+      simp only [Function.comp, off]
+      omega
+    rw [List.map_congr_left this]
+    simp
+
 end Infretis.Repex
